@@ -1,5 +1,7 @@
-\* exhaustive: 3 L1 blocks, 3 events, 1 reorg, 1 failure, 1 restart, chunk size in {1,2,10}
-\* measured: 3 259 276 distinct / 12 025 282 generated states (44 s on 12 workers)
+\* exhaustive: 3 L1 blocks, 3 events, 1 reorg, 1 failure, 1 failed write of the head record, 1 restart, chunk size in {1,2,10}
+\* (repaired design: CatchUpWriteErrorFatal = TRUE; the code before the repair is L1_x_catchupwrite.cfg)
+\* measured: 3 575 174 distinct / 13 046 991 generated states, depth 34 (55-60 s on 4 loaded workers;
+\*           without write failures: 3 259 276 / 12 025 282, 46 s on the same machine)
 CONSTANTS
   MaxBlocks = 3
   MaxEvents = 3
@@ -8,10 +10,14 @@ CONSTANTS
   MaxRestarts = 1
   MaxFail = 1
   ChunkSizes = {1, 2, 10}
+  MaxWriteFail = 1
+  CatchUpWriteErrorFatal = TRUE
+  SwallowWriteError = FALSE
+  AnnounceBeforeWrite = FALSE
   FinalityAfterNotices = TRUE
 INIT Init
 NEXT Next
 VIEW view
-INVARIANTS TypeOK StoredFinalisedCanonical BufferSane ChainSane
-PROPERTIES SetHeadExact OnlySetHeadWrites Monotone RestartIsNoOp
+INVARIANTS TypeOK StoredFinalisedCanonical BufferSane ChainSane AnnouncedIsRecorded
+PROPERTIES SetHeadExact RunningImpliesRecorded StopOnlyOnWriteFailure OnlySetHeadWrites Monotone RestartIsNoOp
 CHECK_DEADLOCK FALSE
